@@ -93,6 +93,11 @@ def stylesheet(rng, extras=False):
         defs = []
         for i in range(nvars):
             name = rng.choice(["--t", "--text", "--c-1", "--Brand", "--muted_2", "--é"]) + (str(i) if rng.random() < 0.5 else "")
+            if varnames and rng.random() < 0.25:
+                # custom property names are case-sensitive: a second property differing only in letter case
+                name = rng.choice(varnames).swapcase()
+                if name in varnames:
+                    name = name + "x"
             k = rng.random()
             if k < 0.7 or not varnames:
                 val = rng.choice(LITERAL_TEXT + LITERAL_BG)
